@@ -413,6 +413,93 @@ def _sign(e):
     return "ANY"
 
 
+def check_streams(ctx, R="C18.streams"):
+    ctx.rule(
+        R,
+        "record and replay are independent streams: in Simulation, whether a value is READ from the replay being followed depends only "
+        "on the input side (replaying / replayCanContinue() / the recorded header's flags), and whether it is WRITTEN to the new recording "
+        "only on the output side; a read that is skipped because a write happened (elif) leaves the input stream out of step, and every "
+        "later value is decoded from the wrong bytes.  The divergence data are written and read over the same collection with the same "
+        "types.  Samplable.serializeValue / deserializeValue / sample all go through the same (conditioned) object",
+    )
+    model = ctx.model
+    sim = model.cls(SI, "Simulation")
+    IN = ("_replayIn", "replaying", "replayCanContinue", "_checkDivergence")
+    OUT = ("_replayOut", "_writeDivergenceData")
+    n = 0
+    loops = {"in": [], "out": []}
+    for mname, fn in sim.methods.items():
+        if mname in ("initializeReplay", "__init__"):
+            continue
+        for c in walk_local(fn):
+            if not (isinstance(c, ast.Call) and isinstance(c.func, ast.Attribute)):
+                continue
+            recv = unparse(c.func.value)
+            side = "in" if recv == "self._replayIn" and c.func.attr.startswith(("read", "deserialize")) else "out" if recv == "self._replayOut" and c.func.attr.startswith(("write", "serialize")) else None
+            if side is None:
+                for a in c.args:
+                    if unparse(a) == "self._replayIn" and "deserialize" in c.func.attr:
+                        side = "in"
+                    elif unparse(a) == "self._replayOut" and "serialize" in c.func.attr:
+                        side = "out"
+            if side is None:
+                continue
+            n += 1
+            other = OUT if side == "in" else IN
+            conds = lib.path_conditions(c, fn)
+            bad = [(t, p) for t, p in conds if any(k in unparse(t) for k in other)]
+            lp = next((a for a in ancestors(c) if isinstance(a, ast.For)), None)
+            if lp is not None:
+                loops[side].append((fn, lp, c))
+            if bad:
+                t, p = bad[0]
+                ctx.finding(
+                    R,
+                    c,
+                    f"Simulation.{mname}: {side}put stream depends on the other side",
+                    f"Simulation.{mname}: `{norm_text(c, 60)}` ({'reads the replay' if side == 'in' else 'writes the recording'}) is reached only when "
+                    f"`{unparse(t)}` is {p}: a run that both records and replays skips it, so the {'replay is read out of step and later values are decoded from the wrong bytes' if side == 'in' else 'recording misses values'}",
+                )
+            else:
+                ctx.ok(R, c, f"Simulation.{mname}: `{norm_text(c, 50)}` depends only on the {side}put side")
+    ctx.floor(R, n, 4, "replay stream operations in Simulation")
+    # divergence data: same collection, same types both ways
+    for (f1, l1, c1) in loops["out"]:
+        for (f2, l2, c2) in loops["in"]:
+            if f1 is f2:
+                ty1 = unparse(c1.args[1]) if len(c1.args) > 1 else None
+                ty2 = unparse(c2.args[0]) if c2.args else None
+                if unparse(l1.iter) == unparse(l2.iter) and unparse(l1.target) == unparse(l2.target) and ty1 == ty2:
+                    ctx.ok(R, l2, f"divergence data written and read over `{unparse(l1.iter)}` with the same types")
+                else:
+                    ctx.finding(R, l2, "divergence data symmetry", f"divergence data are written over `{unparse(l1.iter)}` (type `{ty1}`) but read over `{unparse(l2.iter)}` (type `{ty2}`)")
+    # the conditioned object
+    sa = model.cls(DI, "Samplable")
+    recv = {}
+    for mname in ("sample", "serializeValue", "deserializeValue"):
+        fn = sa.methods.get(mname)
+        if fn is None:
+            raise AnalysisError(f"Samplable.{mname} missing")
+        rs = set()
+        for node in walk_local(fn):
+            if isinstance(node, ast.Call) and isinstance(node.func, ast.Attribute) and node.func.attr == "sampleGiven":
+                rs.add(("value", unparse(node.func.value)))
+            if isinstance(node, ast.Attribute) and node.attr == "_dependencies":
+                rs.add(("deps", unparse(node.value)))
+        recv[mname] = rs
+    objs = {o for rs in recv.values() for _, o in rs}
+    if objs == {"self._conditioned"} and recv["deserializeValue"] >= {("value", "self._conditioned"), ("deps", "self._conditioned")}:
+        ctx.ok(R, sa.methods["deserializeValue"], "sample / serializeValue / deserializeValue all use self._conditioned: a conditioned value is encoded and decoded as the value that was sampled")
+    else:
+        ctx.finding(
+            R,
+            sa.methods["deserializeValue"],
+            "conditioned object not used consistently",
+            f"Samplable.sample / serializeValue / deserializeValue use {dict((k, sorted(v)) for k, v in recv.items())}: the children are read for `self._conditioned` but the value is "
+            f"recomputed from another object, so after conditionOn / pruning the decoded scene holds unsampled distributions",
+        )
+
+
 def check_record(ctx, R="C18.record"):
     from .c19 import check_runtime_sampling
 
@@ -425,4 +512,5 @@ def check(ctx):
     check_errors(ctx)
     check_deterministic(ctx)
     check_divergence(ctx)
+    check_streams(ctx)
     check_record(ctx)
